@@ -1923,9 +1923,9 @@ impl StorageEngine {
                     };
                     
                     let end = if end < 0 {
-                        std::cmp::max(-1, len + end) as usize
+                        std::cmp::max(0, len + end) as usize
                     } else {
-                        std::cmp::min(end as usize, len as usize - 1)
+                        std::cmp::min(end as usize, (len as usize).saturating_sub(1))
                     };
                     
                     if start > end || start >= bytes.len() {
